@@ -123,7 +123,7 @@ type Regexp = Regex
 //	    log.Fatal(err)
 //	}
 func Compile(pattern string) (*Regex, error) {
-	engine, err := meta.Compile(pattern)
+	engine, err := meta.CompileWithConfig(pattern, stdlibDepthConfig())
 	if err != nil {
 		return nil, err
 	}
@@ -132,6 +132,15 @@ func Compile(pattern string) (*Regex, error) {
 		engine:  engine,
 		pattern: pattern,
 	}, nil
+}
+
+// stdlibDepthConfig is the default configuration with the NFA compiler's recursion limit
+// raised to regexp/syntax's own nesting limit (1000), so that every pattern the parser
+// accepts compiles, as it does with the standard library.
+func stdlibDepthConfig() meta.Config {
+	config := meta.DefaultConfig()
+	config.MaxRecursionDepth = 1000
+	return config
 }
 
 // MustCompile compiles a regular expression pattern and panics if it fails.
@@ -165,7 +174,7 @@ func CompilePOSIX(pattern string) (*Regex, error) {
 	if err != nil {
 		return nil, &meta.CompileError{Pattern: pattern, Err: err}
 	}
-	engine, err := meta.CompileRegexp(ast, meta.DefaultConfig())
+	engine, err := meta.CompileRegexp(ast, stdlibDepthConfig())
 	if err != nil {
 		return nil, err
 	}
